@@ -798,7 +798,13 @@ class DiscreteFactor(BaseFactor, StateNameMixin):
 
         # If factor division 0/0 = 0 but is undefined for x/0. In pgmpy we are using
         # np.inf to represent x/0 cases.
-        phi.values[config.get_compute_backend().isnan(phi.values)] = 0
+        if phi.values.ndim == 0:
+            # Scalar factors (empty scope): numpy scalars don't support item assignment.
+            phi.values = phi.values.reshape(1)
+            phi.values[config.get_compute_backend().isnan(phi.values)] = 0
+            phi.values = phi.values.reshape(())
+        else:
+            phi.values[config.get_compute_backend().isnan(phi.values)] = 0
 
         if not inplace:
             return phi
